@@ -582,7 +582,13 @@ func (a *Application) startProxyGoroutine(
 		// headersReady is never closed and the main goroutine blocks forever.
 		// Ensure it is always signalled before closing the pipe.
 		streamRecorder.ensureHeadersReady()
-		pipeWriter.Close() // Signal end of stream
+		if err != nil {
+			// the backend's answer broke off: the translator must not take this for the end of a
+			// complete stream and close the message as if the model had finished
+			pipeWriter.CloseWithError(err)
+		} else {
+			pipeWriter.Close() // Signal end of stream
+		}
 		proxyErrChan <- err
 	}()
 	return proxyErrChan
